@@ -10,6 +10,7 @@ import (
 	"regexp"
 	"go/parser"
 	"go/token"
+	"strconv"
 	"go/types"
 	"sort"
 	"strings"
@@ -840,4 +841,97 @@ func checkFieldNames(c *Checked, job JobCfg) string {
 		}
 	}
 	return ""
+}
+
+// checkPanicMsgs is the text half of C07's default clause on every mock of the file: the
+// nil-check panic of method M of mock X (requested for interface I) names X, the field MFunc and
+// the interface method I.M - whatever other mocks of the same run share the method with it.
+func checkPanicMsgs(c *Checked, job JobCfg) string {
+	if job.StubImpl {
+		return ""
+	}
+	ifaceOf := map[string]string{}
+	for _, a := range job.Args {
+		in, mk := splitArg(a)
+		ifaceOf[mk] = in
+	}
+	for _, d := range c.file.Decls {
+		fd, ok := d.(*ast.FuncDecl)
+		if !ok || fd.Recv == nil || fd.Body == nil || len(fd.Recv.List) != 1 {
+			continue
+		}
+		// receiver *X or *X[T, …]
+		var recv string
+		if st, ok := fd.Recv.List[0].Type.(*ast.StarExpr); ok {
+			switch x := st.X.(type) {
+			case *ast.Ident:
+				recv = x.Name
+			case *ast.IndexExpr:
+				if id, ok := x.X.(*ast.Ident); ok {
+					recv = id.Name
+				}
+			case *ast.IndexListExpr:
+				if id, ok := x.X.(*ast.Ident); ok {
+					recv = id.Name
+				}
+			}
+		}
+		in, ok := ifaceOf[recv]
+		if !ok {
+			continue
+		}
+		m := fd.Name.Name
+		var bad string
+		ast.Inspect(fd.Body, func(n ast.Node) bool {
+			call, ok := n.(*ast.CallExpr)
+			if !ok || len(call.Args) != 1 {
+				return true
+			}
+			if id, ok := call.Fun.(*ast.Ident); !ok || id.Name != "panic" {
+				return true
+			}
+			lit, ok := call.Args[0].(*ast.BasicLit)
+			if !ok || lit.Kind != token.STRING {
+				return true
+			}
+			s, err := strconv.Unquote(lit.Value)
+			want := recv + "." + m + "Func: method is nil but " + in + "." + m + " was just called"
+			if err == nil && s != want {
+				bad = fmt.Sprintf("method %s of %s panics with %q, which does not name the mock, the field and the interface method (%q)", m, recv, s, want)
+			}
+			return true
+		})
+		if bad != "" {
+			return bad
+		}
+	}
+	return ""
+}
+
+// checkArgsRejected is C17/C19's argument clause, judged on the source package itself: when some
+// argument names no interface type of the package, every run must fail (and name it).
+func checkArgsRejected(job JobCfg, res *Result) {
+	si := loadFull(job.Dir)
+	if si.err != nil || si.types == nil {
+		return
+	}
+	badArg := ""
+	for _, a := range job.Args {
+		in, _ := splitArg(a)
+		obj := si.types.Scope().Lookup(in)
+		_, isTN := obj.(*types.TypeName)
+		if obj == nil || !isTN || !types.IsInterface(obj.Type()) {
+			badArg = a
+			break
+		}
+	}
+	if badArg == "" {
+		return
+	}
+	for f, r := range res.Runs {
+		if r.Err == "" && r.Panic == "" {
+			res.Checks["C17"] = fmt.Sprintf("argument %q names no interface of the package, but moq (-fmt %q) succeeded and wrote %d bytes", badArg, f, len(r.Out))
+			return
+		}
+	}
 }
